@@ -3,7 +3,7 @@
 cd "$(dirname "$0")"
 mk() { # file spec inv NN NodeKey Keys Sets MaxH MaxD Win MaxR MaxLag MaxBehind Base AdvV AdvR MaxAdv MaxRestart WithTimer [Switch=TRUE ...]
   f=$1; spec=$2; inv=$3; shift 3
-  declare -A sw=([HeightBack]=FALSE [KeyQuirk]=FALSE [BugVoteTwice]=FALSE [BugOldSet]=FALSE [BugWrongMsg]=FALSE [BugFewer]=FALSE [BugNoMismatch]=FALSE [BugNoWitness]=FALSE [BugKeepForever]=FALSE [StaleSv]=FALSE)
+  declare -A sw=([HeightBack]=FALSE [KeyQuirk]=FALSE [BugVoteTwice]=FALSE [BugOldSet]=FALSE [BugWrongMsg]=FALSE [BugFewer]=FALSE [BugNoMismatch]=FALSE [BugNoWitness]=FALSE [BugKeepForever]=FALSE [StaleSv]=FALSE [BugSendUnverified]=FALSE)
   a=("$@")
   for x in "${a[@]:16}"; do sw[${x%%=*}]=${x##*=}; done
   {
@@ -13,7 +13,7 @@ mk() { # file spec inv NN NodeKey Keys Sets MaxH MaxD Win MaxR MaxLag MaxBehind 
   echo "  MaxH = ${a[4]}"; echo "  MaxD = ${a[5]}"; echo "  Win = ${a[6]}"; echo "  MaxR = ${a[7]}"; echo "  MaxLag = ${a[8]}"
   echo "  MaxBehind = ${a[9]}"; echo "  Base = ${a[10]}"; echo "  AdvV <- ${a[11]}"; echo "  AdvR <- ${a[12]}"; echo "  MaxAdv = ${a[13]}"
   echo "  MaxRestart = ${a[14]}"; echo "  WithTimer = ${a[15]}"
-  for k in HeightBack KeyQuirk BugVoteTwice BugOldSet BugWrongMsg BugFewer BugNoMismatch BugNoWitness BugKeepForever StaleSv; do echo "  $k = ${sw[$k]}"; done
+  for k in HeightBack KeyQuirk BugVoteTwice BugOldSet BugWrongMsg BugFewer BugNoMismatch BugNoWitness BugKeepForever StaleSv BugSendUnverified; do echo "  $k = ${sw[$k]}"; done
   if [ "$spec" = "SimSpec" ]; then echo "  Depth = $inv"; echo "INVARIANT Emit"; else echo "INVARIANTS $inv"; echo "PROPERTIES AbsStep"; fi
   echo "CHECK_DEADLOCK FALSE"
   } > $f
@@ -33,14 +33,14 @@ mk MC_dev_heightback.cfg  Spec "$INV" 1 NK0  K5 SetsB  3 2 2 1 1 3 0 NoAdv AllR 
 mk MC_dev_keyquirk.cfg    Spec "$INV" 1 NK0  K5 SetsB  3 2 2 1 1 3 0 NoAdv AllR  3 1 FALSE KeyQuirk=TRUE
 mk MC_dev_nomismatch.cfg  Spec "$INV" 1 NK0  K5 SetsB  3 2 2 1 1 3 0 NoAdv AllR  3 1 FALSE BugNoMismatch=TRUE
 mk MC_dev_nowitness.cfg   Spec "$INV" 1 NK0  K5 SetsB  3 2 2 1 1 3 0 NoAdv AllR  3 1 FALSE BugNoWitness=TRUE
-mk MC_dev_votetwice.cfg   Spec "$INV" 2 NK12 K4 SetsD  1 0 2 1 1 1 0 AllV  GoodR 2 0 TRUE  BugVoteTwice=TRUE
-mk MC_dev_wrongmsg.cfg    Spec "$INV" 2 NK12 K4 SetsD  1 0 2 1 1 1 0 AllV  GoodR 2 0 TRUE  BugWrongMsg=TRUE
-mk MC_dev_fewer.cfg       Spec "$INV" 2 NK12 K4 SetsD  1 0 2 1 1 1 0 AllV  GoodR 2 0 TRUE  BugFewer=TRUE
-mk MC_dev_oldset.cfg      Spec "$INV" 2 NK23 K4 SetsA  2 1 2 1 2 2 0 ChgV  SetR  1 0 FALSE BugOldSet=TRUE
-mk MC_dev_stalesv.cfg     Spec "$INV" 1 NK2  K4 SetsA  2 1 2 1 1 2 3 IdxV  NoAdv 2 0 FALSE StaleSv=TRUE
+mk MC_dev_votetwice.cfg   Spec "$INV" 2 NK12 K4 SetsD  1 0 2 1 1 1 0 AllV  GoodR 2 0 TRUE  BugVoteTwice=TRUE BugSendUnverified=TRUE
+mk MC_dev_wrongmsg.cfg    Spec "$INV" 2 NK12 K4 SetsD  1 0 2 1 1 1 0 AllV  GoodR 2 0 TRUE  BugWrongMsg=TRUE BugSendUnverified=TRUE
+mk MC_dev_fewer.cfg       Spec "$INV" 2 NK12 K4 SetsD  1 0 2 1 1 1 0 AllV  GoodR 2 0 TRUE  BugFewer=TRUE BugSendUnverified=TRUE
+mk MC_dev_oldset.cfg      Spec "$INV" 2 NK23 K4 SetsA  2 1 2 1 2 2 0 ChgV  SetR  1 0 FALSE BugOldSet=TRUE BugSendUnverified=TRUE
+mk MC_dev_stalesv.cfg     Spec "$INV" 1 NK2  K4 SetsA  2 1 2 1 1 2 3 IdxV  NoAdv 2 0 FALSE StaleSv=TRUE BugSendUnverified=TRUE
 mk MC_dev_keepforever.cfg Spec "$INV" 2 NK12 K4 SetsC2 2 1 1 1 1 1 0 NoAdv GoodR 1 1 TRUE  BugKeepForever=TRUE
-# behaviour generators (switches = how the code under test behaves: StaleSv)
+# behaviour generators (all switches off = how the code under test behaves after the repairs)
 #                          depth NN key  keys sets   H D W  R L Bh Base advV advR adv rst timer
-mk Sim_4a.cfg SimSpec 70   4 NK4   K6 SetsS  4 2 10 1 2 2  2   AllV AllR 8   1  FALSE StaleSv=TRUE
-mk Sim_4b.cfg SimSpec 70   4 NK4   K6 SetsT  4 2 10 1 2 2  2   AllV AllR 8   1  FALSE StaleSv=TRUE
-mk Sim_7.cfg  SimSpec 110  7 NK7   K9 SetsU  4 2 10 1 2 2  2   AllV AllR 10  1  FALSE StaleSv=TRUE
+mk Sim_4a.cfg SimSpec 70   4 NK4   K6 SetsS  4 2 10 1 2 2  2   AllV AllR 8   1  FALSE
+mk Sim_4b.cfg SimSpec 70   4 NK4   K6 SetsT  4 2 10 1 2 2  2   AllV AllR 8   1  FALSE
+mk Sim_7.cfg  SimSpec 110  7 NK7   K9 SetsU  4 2 10 1 2 2  2   AllV AllR 10  1  FALSE
